@@ -1044,6 +1044,13 @@ func parse_process_loop(tokens []*Token, index int) (AstProcessStatement, int, e
 
 func parse_process_expression(tokens []*Token, index int) (AstProcessExpression, int, error) {
 	exprTokens, next_index := getProcessExpressionTokens(tokens, index)
+	if len(exprTokens) == 0 {
+		errorIndex := index
+		if errorIndex >= len(tokens) {
+			errorIndex = len(tokens) - 1
+		}
+		return nil, index, NewParseError(tokens[errorIndex], "Unexpected token. Expected an expression.")
+	}
 	expr, fail_index, err := parse_expr_pratt(exprTokens, 0, 0)
 	if err != nil {
 		return nil, index + fail_index, err
@@ -1052,6 +1059,9 @@ func parse_process_expression(tokens []*Token, index int) (AstProcessExpression,
 }
 
 func parse_expr_pratt(tokens []*Token, index int, minPrecedence int) (AstProcessExpression, int, error) {
+	if index >= len(tokens) {
+		return nil, len(tokens) - 1, NewParseError(tokens[len(tokens)-1], "Unexpected end of expression.")
+	}
 	token_index := index + 1
 	var lhs AstProcessExpression
 	if tokens[index].TokenType == STRING {
@@ -1073,8 +1083,11 @@ func parse_expr_pratt(tokens []*Token, index int, minPrecedence int) (AstProcess
 		if err != nil {
 			return nil, next_index, err
 		}
+		if next_index >= len(tokens) {
+			return nil, len(tokens) - 1, NewParseError(tokens[len(tokens)-1], "Unexpected end of expression. Expected ')'.")
+		}
 		if tokens[next_index].TokenType != CLOSEPAREN {
-			return nil, next_index, err
+			return nil, next_index, NewParseError(tokens[next_index], "Unexpected token. Expected ')'.")
 		}
 		token_index = next_index + 1
 		lhs = subexpr
